@@ -137,10 +137,15 @@ fn encode_nibble(c: u8) -> u8 {
 
 pub fn decode_hex(data: &[u8]) -> Result<Vec<u8>> {
     let mut out = Vec::with_capacity(data.len() / 2);
-    let pairs = data.iter().cloned()
+    let mut digits: Vec<u8> = data.iter().cloned()
         .take_while(|&b| b != b'>')
         .filter(|&b| !matches!(b, 0 | 9 | 10 | 12 | 13 | 32))
-        .tuples();
+        .collect();
+    // an odd number of digits: the last one is followed by an implied 0
+    if digits.len() % 2 == 1 {
+        digits.push(b'0');
+    }
+    let pairs = digits.into_iter().tuples();
     for (i, (high, low)) in pairs.enumerate() {
         if let (Some(low), Some(high)) = (decode_nibble(low), decode_nibble(high)) {
             out.push(high << 4 | low);
